@@ -12,8 +12,12 @@ package tickmath
 // 2^msb <= price < 2^(msb+1), msb <= 63 and p == price >> msb == 1. The thresholds of the search are
 // 2^32-1, 2^16-1, 2^8-1, 2^4-1, 2^2-1, 2^1-1. (The 16-step log2 refinement that follows uses bit tricks that
 // are modelled abstractly; optimality of the final tick is not decided deductively, see DESIGN.md C11.)
+// The mantissa handed to the log refinement is the price scaled so that its leading bit sits at 2^31, whichever
+// side of 2^31 the price is on: r == floor(price * 2^31 / 2^msb), hence 2^31 <= r < 2^32.
 //@ func PriceToTick
+//@ pure
 //@ assert before r: 0 <= msb && msb <= 63 && p == 1 && pow2(msb) <= price && price < 2 * pow2(msb)
+//@ assert before log2: pow2(31) <= r && r < pow2(32) && (msb >= 31 ==> r == price / pow2(msb - 31)) && (msb < 31 ==> r == price * pow2(31 - msb))
 //@ loop 0: invariant 0 <= #i && #i <= 6 && 1 <= p && msb >= 0 && msb + pow2(6 - #i) <= 64
 //@ loop 0: invariant p == price / pow2(msb) && p < pow2(pow2(6 - #i))
 //@ loop 1: invariant 0 <= i && i <= 16
